@@ -47,7 +47,7 @@ var selTables = map[string]map[string]map[string]string{
 		"sync":                  {"Mutex": "ssync", "RWMutex": "ssync", "Once": "ssync", "WaitGroup": "ssync", "Locker": "ssync"},
 		"os":                    {"NewFile": "sinot", "File": "sinot"},
 		"golang.org/x/sys/unix": {"InotifyInit1": "sinot", "InotifyAddWatch": "sinot", "InotifyRmWatch": "sinot"},
-		"time":                  {"Sleep": "ssim", "After": "ssim", "NewTimer": "ssim", "AfterFunc": "ssim", "Timer": "ssim"},
+		"time":                  {"Sleep": "ssim", "After": "ssim", "NewTimer": "ssim", "AfterFunc": "ssim", "Timer": "ssim", "Now": "ssim", "Since": "ssim"},
 		"runtime":               {"Gosched": "ssim"},
 		"sync/atomic":           {"*": "satomic"},
 	},
@@ -55,7 +55,7 @@ var selTables = map[string]map[string]map[string]string{
 		"sync":                                  {"Mutex": "ssync", "RWMutex": "ssync", "Once": "ssync", "WaitGroup": "ssync", "Locker": "ssync"},
 		"os":                                    {"Lstat": "skq", "ReadDir": "skq", "Readlink": "skq", "Stat": "skq"},
 		"golang.org/x/sys/unix":                 {"*": "skq"},
-		"time":                                  {"Sleep": "ssim", "After": "ssim", "NewTimer": "ssim", "AfterFunc": "ssim", "Timer": "ssim"},
+		"time":                                  {"Sleep": "ssim", "After": "ssim", "NewTimer": "ssim", "AfterFunc": "ssim", "Timer": "ssim", "Now": "ssim", "Since": "ssim"},
 		"runtime":                               {"Gosched": "ssim", "GOOS": "skq"},
 		"github.com/fsnotify/fsnotify/internal": {"*": "skq"},
 		"sync/atomic":                           {"*": "satomic"},
